@@ -53,6 +53,9 @@ func newposGen(r *common.Rng, n int, shard int, out *common.Out) {
 		} {
 			out.Line("%s", s)
 		}
+		for _, g := range longGames(2) {
+			out.Line("%s", g)
+		}
 	}
 	for i := 0; i < n; i++ {
 		maxPlies := r.Intn(80)
@@ -114,7 +117,34 @@ func newposRun(cases []string, obs, oracle *common.Out) {
 	}
 }
 
+// longGames: legal games of exactly 600 plies (the upper end of C03's range), found by trying fixed seeds in
+// order, so that they are the same on every run; shard 0 of NEWPOS and GAMESPEC starts with them.
+func longGames(count int) []string {
+	var res []string
+	starts := poslib.StartPositions()
+	for seed := uint64(1); seed < 4000 && len(res) < count; seed++ {
+		rr := common.NewRng(seed*0x9E3779B97F4A7C15 + 12345)
+		var moves []string
+		poslib.Playout(rr, starts[0], 600, false, func(p *position.Position, legal []move.Move, m move.Move) bool {
+			if m == move.NullMove || p.HalfMoveClock >= 150 {
+				return false
+			}
+			moves = append(moves, m.String())
+			return true
+		})
+		if len(moves) == 600 {
+			res = append(res, "fen "+poslib.CuratedFens[0]+" moves "+strings.Join(moves, " "))
+		}
+	}
+	return res
+}
+
 func gamespecGen(r *common.Rng, n int, shard int, out *common.Out) {
+	if shard == 0 {
+		for _, g := range longGames(2) {
+			out.Line("%s", g)
+		}
+	}
 	for i := 0; i < n; i++ {
 		maxPlies := r.Intn(120)
 		if r.Chance(1, 15) {
@@ -136,11 +166,19 @@ func gamespecRun(cases []string, obs, oracle *common.Out) {
 		tokens := strings.Fields(line)
 		saved := os.Stdout
 		os.Stdout = devnull
-		p, _, ok, _ := game.VerifNewPosition(tokens)
+		var p position.Position
+		var ok bool
+		res := common.Protect(func() string {
+			p, _, ok, _ = game.VerifNewPosition(tokens)
+			return "ok"
+		})
 		os.Stdout = saved
-		if !ok {
+		switch {
+		case res != "ok":
+			obs.Line("panic") // the games of this key are legal: the specification prints a FEN, so this is a failing input
+		case !ok:
 			obs.Line("none")
-		} else {
+		default:
 			obs.Line("%s", p.ToFen())
 		}
 		oracle.Line("OK")
